@@ -46,7 +46,7 @@ def conformance(c, tier):
 
 def run(tier):
     c = vlib.Check("C03", tier, "model_checking", RULE, "sched_tbb")
-    c.deadline = 170 if tier == "quick" else 1700
+    c.deadline = 170 if tier == "quick" else 2400
     c.assumptions = ["the legal executions of tbb::parallel_for / parallel_reduce(functional form) / concurrent_vector::push_back are those of DESIGN.md appendix A; "
                      "containment of the real runtime's behaviour in that grammar is re-validated on every run by trace conformance against the installed oneTBB",
                      "parmcb never uses the iterator returned by push_back and never reads a concurrent_vector inside the parallel_for that fills it (enforced by the shim: exit 2 otherwise)",
@@ -64,8 +64,16 @@ def run(tier):
                  ("explore G(4) x A2 with reversed edge orientation, exact + approx k=2, bound 1", [["--n", 4, "--alpha", "A2", "--bound", 1, "--direct-bound", 1, "--orient", 1], ["--n", 4, "--alpha", "A2", "--bound", 1, "--direct-bound", 1, "--orient", 1, "--ks", "2"]]),
                  ("explore G(5) x U, approx x3, k=2, bound 1", [["--n", 5, "--alpha", "U", "--bound", 1, "--direct-bound", 1, "--ks", "2"]]),
                  ("purity probe over G(6) x U, dim >= 4 (default schedule + probe; inputs whose reduce bodies share state get direct exploration at bound 2)",
-                  [["--n", 6, "--alpha", "U", "--bound", 0, "--direct-bound", 0, "--min-dim", 4]])]
+                  [["--n", 6, "--alpha", "U", "--bound", 0, "--direct-bound", 0, "--min-dim", 4]]),
+                 ("dense core + pendant vertices (support vectors with >= |V| entries: the vertex-range reduction of the signed variant, with leaves that find nothing): "
+                  "K7/K8 with 1-2 pendant vertices numbered last or first, K7, K8, wheel:7 x menu R3x400, all exact TBB variants, every reduce outcome, default for-schedules",
+                  [["--families", "Kp:7:1,pK:7:1,Kp:7:2,Kp:8:1,K:7,K:8,wheel:7", "--alpha", "R3x400", "--bound", 0, "--direct-bound", 0, "--wchunks", 16]])]
     else:
+        plan += [
+                 ("dense core + pendant vertices: K7/K8/K9 with pendants, K7, K8, wheel:7/8 x menus R3x8000 and R9x8000, exact TBB variants, every reduce outcome",
+                  [["--families", "Kp:7:1,pK:7:1,Kp:7:2,pK:7:2,Kp:8:1,pK:8:1,Kp:9:1,K:7,K:8,wheel:7,wheel:8", "--alpha", a, "--bound", 0, "--direct-bound", 0, "--wchunks", 64] for a in ("R3x8000", "R9x8000")]),
+                 ("dense core + pendant vertex, K7+1 x R3x2000, signed variant, bound 1 / direct bound 1",
+                  [["--families", "Kp:7:1,pK:7:1", "--alpha", "R3x2000", "--bound", 1, "--direct-bound", 1, "--variants", "signed_tbb", "--wchunks", 64]])]
         plan += [("explore G(0..4) x A3, exact x3, bound 2, direct 2", [["--n", n, "--alpha", "A3", "--bound", 2, "--direct-bound", 2, "--unbounded-dim", 2] for n in range(0, 5)]),
                  ("explore G(0..4) x A2, exact x3, bound 3, direct 3", [["--n", n, "--alpha", "A2", "--bound", 3, "--direct-bound", 3, "--unbounded-dim", 2] for n in range(0, 5)]),
                  ("explore G(0..4) x A2, approx x3, k in {1,2,3}, bound 2", [["--n", n, "--alpha", "A2", "--bound", 2, "--direct-bound", 2, "--ks", "1,2,3"] for n in range(2, 5)]),
@@ -83,6 +91,7 @@ def run(tier):
             c.add_run(r, bound + " :: " + r["args"], None, replay={"harness": "sched_tbb"})
             for k in ("reduce_max_outcomes", "reduce_bodies_found_impure", "inputs_hitting_execution_cap", "inputs_decided_by_direct_mode_only"):
                 c.extra[k] = max(c.extra.get(k, 0), r.get(k, 0))
+            c.extra["reduce_calls_with_identity_leaf"] = c.extra.get("reduce_calls_with_identity_leaf", 0) + r.get("reduce_calls_with_identity_leaf", 0)
             c.extra["direct_mode_schedules"] = c.extra.get("direct_mode_schedules", 0) + r.get("direct_mode_schedules", 0)
     # race half
     env = {"TSAN_OPTIONS": "halt_on_error=1 exitcode=66 report_signal_unsafe=0"}
